@@ -431,7 +431,7 @@ func runC05(t *testing.T, c simrt.Chooser, o Opts) *Out {
 		// some destinations have their own cache entry
 		want := s.expected()
 		i := 0
-		for key := range want {
+		for _, key := range sortedProbeKeys(want) {
 			if i%3 == 0 {
 				s.Cache = append(s.Cache, fileEntryMAC{IP: ipStr(key.IP), MAC: pktcodec.MACString(func() []byte { m := hostMAC(key.IP); return m[:] }())})
 			}
